@@ -791,4 +791,144 @@ theorem Safe.of_harmless {e : Entry ε} {op : Op δ ε} (h : op.harmlessFor e.se
   | tick t' => trivial
   | wake => trivial
 
+/-! ### helpers of the C16 theorems -/
+
+theorem filter_seq_length_aux {l : List (Delivery ε)} (hn : l.Pairwise (fun a b => a.entry.seq ≠ b.entry.seq))
+    {d : Delivery ε} (hd : d ∈ l) : (l.filter (fun x => x.entry.seq = d.entry.seq)).length = 1 := by
+  induction l with
+  | nil => cases hd
+  | cons x xs ih =>
+    have hx := List.pairwise_cons.1 hn
+    rcases List.mem_cons.1 hd with rfl | hd
+    · have : xs.filter (fun y => decide (y.entry.seq = d.entry.seq)) = [] := by
+        rw [List.filter_eq_nil_iff]
+        intro y hy
+        have := hx.1 y hy
+        simp; omega
+      simp [this]
+    · have hne : ¬ x.entry.seq = d.entry.seq := hx.1 d hd
+      simp [hne, ih hx.2 hd]
+
+/-- the general form of "exactly once": any side condition that makes every operation `Safe` for
+the entry will do -/
+theorem exactly_once_of_safe_aux (t : Timer δ ε) (hw0 : WF t) (e : Entry ε)
+    (ops : List (Op δ ε)) (hs : e ∈ (t.run ops).pending ∨ Delivered (t.run ops) e)
+    (hdue : e.due ≤ (t.run ops).now) :
+    (((t.run ops).wake.log.filter (fun d => d.entry.seq = e.seq)).length = 1 ∧
+     ∃ d ∈ (t.run ops).wake.log, d.entry = e ∧ d.viaTimer = true) := by
+  have hw := hw0.run ops
+  have hdel : Delivered (t.run ops).wake e := by
+    rcases hs with hp | ⟨d, hd, hde⟩
+    · have hns : ¬ (t.run ops).stopped = true := by
+        intro hst; have := hw.dead hst; rw [this] at hp; cases hp
+      unfold Timer.wake
+      rw [if_neg hns]
+      exact fire_due hw hp hdue _ (Nat.le_refl _)
+    · exact ⟨d, (Frame.step (t.run ops) .wake).mono d hd, hde⟩
+  obtain ⟨d, hd, hde, hv⟩ := hdel
+  refine ⟨?_, d, hd, hde, hv⟩
+  have := filter_seq_length_aux hw.wake.lnodup hd
+  rw [hde] at this
+  exact this
+
+theorem idsFresh_keep_aux {t : Timer δ ε} (h : WF t) {e : Entry ε} (he : e ∈ t.pending) (ops : List (Op δ ε))
+    (hc : ∀ op ∈ ops, ∀ id, op = .cancel id → e.sendid ≠ some id)
+    (hterm : ∀ op ∈ ops, op ≠ .terminate ∧ op ≠ .stop)
+    (hf : idsFresh t ops = true) : e ∈ (t.run ops).pending ∨ Delivered (t.run ops) e := by
+  induction ops generalizing t with
+  | nil => exact Or.inl he
+  | cons op ops ih =>
+    unfold idsFresh at hf
+    rw [Bool.and_eq_true] at hf
+    have hsafe : Safe t e op := by
+      cases op with
+      | send id tg d mk =>
+        cases id with
+        | none => trivial
+        | some sid =>
+          intro ⟨halive, hd, htg, hsid⟩
+          have hl := h.own e he sid hsid
+          have := hf.1
+          simp [halive, hd, htg, hl] at this
+      | cancel id => exact hc _ (List.mem_cons_self ..) id rfl
+      | terminate => exact absurd rfl (hterm _ (List.mem_cons_self ..)).1
+      | stop => exact absurd rfl (hterm _ (List.mem_cons_self ..)).2
+      | assign f => trivial
+      | tick t' => trivial
+      | wake => trivial
+    rcases keep_step h he op hsafe with he' | ⟨d, hd, hde⟩
+    · exact ih (h.step op) he' (fun o ho => hc o (List.mem_cons_of_mem _ ho))
+        (fun o ho => hterm o (List.mem_cons_of_mem _ ho)) hf.2
+    · right
+      exact ⟨d, (Frame.run (t.step op) ops).mono d hd, hde⟩
+
+/-- in a list whose members have pairwise distinct `seq`, equal `seq` means equal member -/
+theorem eq_of_seq_eq_aux (l : List (Entry ε)) (hl : l.Pairwise (fun a b => a.seq ≠ b.seq))
+    {a b : Entry ε} (ha : a ∈ l) (hb : b ∈ l) (hs : a.seq = b.seq) : a = b := by
+  induction l with
+  | nil => cases ha
+  | cons x xs ih =>
+    have hx := List.pairwise_cons.1 hl
+    rcases List.mem_cons.1 ha with r1 | r1 <;> rcases List.mem_cons.1 hb with r2 | r2
+    · exact r1.trans r2.symm
+    · exact absurd (r1 ▸ hs) (hx.1 b r2)
+    · exact absurd (r2 ▸ hs.symm) (hx.1 a r1)
+    · exact ih hx.2 r1 r2
+
+theorem stopped_run_aux (t : Timer δ ε) (hs : t.stopped = true) (ha : t.alive = false) (hp : t.pending = [])
+    (ops : List (Op δ ε)) : (t.run ops).log = t.log ∧ (t.run ops).pending = [] := by
+  induction ops generalizing t with
+  | nil => exact ⟨rfl, hp⟩
+  | cons op ops ih =>
+    have hstep : (t.step op).stopped = true ∧ (t.step op).alive = false ∧ (t.step op).pending = [] ∧
+        (t.step op).log = t.log := by
+      cases op with
+      | send id tg d mk => simp [Timer.step, Timer.send, ha, hp, hs]
+      | cancel id => simp [Timer.step, Timer.cancel, ha, hp, hs]
+      | assign f => simp [Timer.step, Timer.assign, ha, hp, hs]
+      | tick t' => exact ⟨hs, ha, hp, rfl⟩
+      | wake => simp [Timer.step, Timer.wake, ha, hp, hs]
+      | terminate => exact ⟨hs, rfl, hp, rfl⟩
+      | stop => simp [Timer.step, Timer.stop, ha]
+    have := ih (t.step op) hstep.1 hstep.2.1 hstep.2.2.1
+    exact ⟨this.1.trans hstep.2.2.2, this.2⟩
+
+theorem fireLoop_fields_aux (f : Nat) (t : Timer δ ε) :
+    (fireLoop f t).nextSeq = t.nextSeq ∧ (fireLoop f t).alive = t.alive := by
+  induction f generalizing t with
+  | zero => exact ⟨rfl, rfl⟩
+  | succ f ih =>
+    unfold Rfsm.Timer.fireLoop
+    split
+    · exact ⟨rfl, rfl⟩
+    · rename_i x rest hp
+      split
+      · have h1 := ih (fireOne t x rest)
+        have h2 := fireOne_now t x rest
+        exact ⟨h1.1.trans h2.2.1, h1.2.trans h2.2.2.1⟩
+      · exact ⟨rfl, rfl⟩
+
+theorem dead_nextSeq_aux (u : Timer δ ε) (hu : u.alive = false) (os : List (Op δ ε)) :
+    (u.run os).nextSeq = u.nextSeq := by
+  induction os generalizing u with
+  | nil => rfl
+  | cons o os ih =>
+    have h1 : (u.step o).alive = false ∧ (u.step o).nextSeq = u.nextSeq := by
+      cases o with
+      | send id tg dl mk => simp [Timer.step, Timer.send, hu]
+      | cancel id => simp [Timer.step, Timer.cancel, hu]
+      | assign f => simp [Timer.step, Timer.assign, hu]
+      | tick t' => exact ⟨hu, rfl⟩
+      | terminate => exact ⟨rfl, rfl⟩
+      | stop => simp [Timer.step, Timer.stop, hu]
+      | wake =>
+        show u.wake.alive = false ∧ u.wake.nextSeq = u.nextSeq
+        unfold Timer.wake
+        split
+        · exact ⟨hu, rfl⟩
+        · have := fireLoop_fields_aux u.pending.length u
+          exact ⟨this.2.trans hu, this.1⟩
+    exact (ih _ h1.1).trans h1.2
+
+
 end Rfsm.Timer
